@@ -2,6 +2,10 @@
 import struct, itertools
 import vlib
 from vlib import hexs, unhex
+# >>> a_c03
+import sys as _sys
+from props import C03_mirror
+# <<< a_c03
 
 RULE = ("exhaustive sequences over the 14 token kinds (position-dependent canonical payloads) up to length 5 (quick) / 6 "
         "(thorough) from the top level and up to length 4 / 5 behind 12 contexts that open the fast paths (token/quoted/i32 key, "
@@ -219,6 +223,7 @@ class Judge:
         self.ctx = ctx
         self.wf_only = wf_only
         self.cand = {}     # key -> list of (len, what, case, impl, expect)
+        self.accepted = []   # a_c03: hex inputs that at least one parser accepted (for the mirror oracle)
 
     def add(self, key, what, case, impl, expect=None):
         l = self.cand.setdefault(key, [])
@@ -245,6 +250,10 @@ class Judge:
                 self.add("crash", "binary tape parser: %s" % o[:80], c, o, "opt=.. | ref=.. | wf=..")
                 continue
             opt, ref, wf = s
+            # >>> a_c03
+            if (opt != "ERR" or ref != "ERR") and k >= base:
+                self.accepted.append(c.split("\t")[-1])
+            # <<< a_c03
             if "n" in wf or "p" in wf:
                 self.add("tape-not-wf", "accepted tape is not structurally sound (wf=%s: n = links/nesting, p = payload outside input)" % wf, c, o, "wf=y")
             if not self.wf_only and opt != ref:
@@ -403,6 +412,16 @@ def gen_streams(ctx, judge, sizes):
     cases = ["bt.reuse\t%s\t%s" % (hexs(rng.choice(pool)), hexs(rng.choice(pool))) for _ in range(max(500, ndocs // 2))]
     impl, model = ctx.correspond("reuse", cases, nontrivial=nontrivial)
     judge.check(cases, impl, model, "reuse")
+    # >>> a_c03
+    if not judge.wf_only:
+        me = _sys.modules[__name__]
+        # 8. documents with mixed containers at any depth and their expected tape (classification, markers)
+        mdocs = C03_mirror.run_mixed_docs(ctx, judge, me, max(1500, ndocs // 2))
+        # 9. chains of parses into one tape, alternating the two entry points
+        C03_mirror.run_chain(ctx, judge, pool + [b for b, _ in mdocs[:300]] + [b"", b"\x03\x00"], max(600, ndocs // 3))
+        # 10. every accepted input of every stream above: the real tape against the real Lexer's token sequence
+        C03_mirror.run_mirror(ctx, judge, judge.accepted, extra=[hexs(C03_mirror.witness_L(enc, EQUAL, OPEN, CLOSE))])
+    # <<< a_c03
 
 
 def run(ctx):
